@@ -25,6 +25,7 @@ is a shape the extractor does not understand (fail-closed, less serious, still w
     self-aug-expand  self.n -= 1     ->  self.n = self.n - 1
     comprehension-forms / comprehension-calls   set(x for ..) <-> {x for ..}, list(..) <-> [..], dict((k, v) for ..) <-> {k: v for ..}
     swap-independent   x = <pure>; y = <pure>  ->  y = <pure>; x = <pure>
+    annotate-locals   x = e  ->  x: object = e ;  add-asserts   a tautological assert on the first parameter at the top of every function
     extract-alias  .. x.costs[a] .. x.costs[b] ..  ->  alias = x.costs; .. alias[a] .. alias[b] ..
     inline-alias   c = x.costs; .. c[k] ..  ->  .. x.costs[k] ..   (top-level local bound once to an attribute chain of a parameter)
 
@@ -552,6 +553,46 @@ class SwapIndependent(Rewrite):
         return node
 
 
+
+class AnnotateLocals(Rewrite):
+    """x = <expr>  ->  x: object = <expr>   (plain name targets inside functions)"""
+
+    def __init__(self, only=None):
+        super().__init__(only)
+        self.depth = 0
+
+    def visit_FunctionDef(self, node):
+        self.depth += 1
+        node = self.generic_visit(node)
+        self.depth -= 1
+        return node
+
+    def visit_Assign(self, node):
+        if self.depth and len(node.targets) == 1 and isinstance(node.targets[0], ast.Name) and self.hit():
+            return ast.AnnAssign(target=node.targets[0], annotation=ast.Name(id="object", ctx=ast.Load()), value=node.value, simple=1)
+        return node
+
+
+class AddAsserts(Rewrite):
+    """def f(a, ..): BODY  ->  def f(a, ..): assert a is not None or a is None; BODY   (a tautology on the first parameter)"""
+
+    def visit_FunctionDef(self, node):
+        node = self.generic_visit(node)
+        params = [a.arg for a in node.args.args if a.arg not in ("self", "cls")]
+        if params and self.hit():
+            p = params[0]
+            test = ast.BoolOp(op=ast.Or(), values=[
+                ast.Compare(left=ast.Name(id=p, ctx=ast.Load()), ops=[ast.IsNot()], comparators=[ast.Constant(value=None)]),
+                ast.Compare(left=ast.Name(id=p, ctx=ast.Load()), ops=[ast.Is()], comparators=[ast.Constant(value=None)]),
+            ])
+            start = 1 if node.body and isinstance(node.body[0], ast.Expr) and isinstance(node.body[0].value, ast.Constant) else 0
+            node.body = node.body[:start] + [ast.Assert(test=test, msg=None)] + node.body[start:]
+        return node
+
+    def visit_Lambda(self, node):
+        return node
+
+
 def package_signatures(prog):
     seen, dup = {}, set()
     for mod in prog.modules.values():
@@ -594,6 +635,8 @@ REWRITES = {
     "comprehension-forms": lambda sig, only: ComprehensionForms(only),
     "comprehension-calls": lambda sig, only: ComprehensionCalls(only),
     "swap-independent": lambda sig, only: SwapIndependent(only),
+    "annotate-locals": lambda sig, only: AnnotateLocals(only),
+    "add-asserts": lambda sig, only: AddAsserts(only),
 }
 
 
